@@ -108,6 +108,10 @@ def replay_radius(data):
     uc = UnitCell(D)
     frac = np.array(data["frac"], float).reshape(-1, 3)
     frac = frac - np.floor(frac)
+    if data.get("centres") is not None and data.get("which") in ("atomic_surroundings", "atom_group_surroundings"):
+        # sites are listed with the (possibly unwrapped) fractional coordinates of the counterexample: the bound arithmetic sees them
+        cen = np.array(data["centres"], float).reshape(-1, 3) @ np.linalg.inv(D)
+        frac[:len(cen)] = cen
     Z = list(data.get("Z", [6] * len(frac)))
     els = [Element[n] for n in Z]
     c = Crystal(uc, SpaceGroup(1), AsymmetricUnit(els, frac))
@@ -138,6 +142,10 @@ def replay_radius(data):
     if which == "atoms_in_radius":
         o = np.array(data["origin"], float)
         res = c.atoms_in_radius(r, origin=o)
+        if data.get("origin2") is not None:
+            compare(which, res["cart_pos"], res["element"], [o], False)
+            o = np.array(data["origin2"], float)          # the same crystal object asked again around another centre
+            res = c.atoms_in_radius(r, origin=o)
         compare(which, res["cart_pos"], res["element"], [o], False)
         for m in range(len(res["cart_pos"])):
             k = int(res["uc_atom"][m])
@@ -204,7 +212,7 @@ REPLAY = {"radius": replay_radius, "slab": replay_slab}
 # ------------------------------------------------------------------------------------------
 def _call_sites(mods):
     """(name, runner(cr, ex, r, D, Iv) -> list of (centre Cartesian terms)) for each query function."""
-    O = lambda n, k: np.array([[Sym(z3.Real("o%d_%d" % (j, i))) for i in range(3)] for j in range(n)], dtype=object).view(OArr)
+    O = lambda n, k: np.array([[Sym(z3.Real(("o%d_%d" if not k else "oo%d_%d") % (j, i))) for i in range(3)] for j in range(n)], dtype=object).view(OArr)
 
     def atoms_in_radius(cr, r, Iv):
         o = O(1, 0)
@@ -226,8 +234,36 @@ def _call_sites(mods):
         cr.symmetry_unique_molecules = lambda: [mol]
         return [o[0], o[2]], (lambda: cr.atom_group_surroundings([0, 2], radius=r))
 
+    def atoms_in_radius_again(cr, r, Iv):
+        """a first query (completed, nothing within the radius) with one centre, then the same radius with another centre on
+        the same crystal object: the second query must search cells from its own centre"""
+        o1, o2 = O(1, 0), O(1, 1)
+
+        class NoHits:
+            def __init__(self, pts, *a, **k):
+                pass
+
+            def query_ball_point(self, x, rr, *a, **k):
+                return []
+
+        def fn():
+            raising = cr.slab
+            one = np.array([[Sym(z3.Real("far%d" % k)) for k in range(3)]], dtype=object).view(OArr)
+            cr.slab = lambda bounds=None, **k: {"frac_pos": one, "cart_pos": one, "element": np.array([6]), "asym_atom": np.array([0]), "symop": np.array([16484]),
+                                               "label": np.array(["X"]), "occupation": np.array([1.0]), "cell": np.zeros((1, 3)), "n_uc": 1, "n_cells": 1}
+            oldkd = mods.cm.KDTree
+            mods.cm.KDTree = NoHits
+            try:
+                cr.atoms_in_radius(r, origin=o1[0])
+            finally:
+                mods.cm.KDTree = oldkd
+                cr.slab = raising
+            return cr.atoms_in_radius(r, origin=o2[0])
+        return [o2[0]], fn
+
     return [("atoms_in_radius", atoms_in_radius), ("atomic_surroundings", atomic_surroundings),
-            ("molecule_environment", molecule_environment), ("atom_group_surroundings", atom_group_surroundings)]
+            ("molecule_environment", molecule_environment), ("atom_group_surroundings", atom_group_surroundings),
+            ("atoms_in_radius (second query, other centre)", atoms_in_radius_again)]
 
 
 def lemma_A(ctx, mods, only=None):
@@ -252,6 +288,12 @@ def lemma_A(ctx, mods, only=None):
         ctx.add_paths(ex)
         for p in paths:
             if not isinstance(p.exc, _Captured):
+                if "second query" in name and p.exc is None:
+                    ctx.record("A:%s: the second query computes the cells to search from its own centre" % name, "counterexample", nontrivial=True)
+                    ctx.violation("radius:repeat", "atoms_in_radius called again with the same radius and another centre does not search cells around the new centre",
+                                  {"D": [[6.0, 0, 0], [1.0, 7.0, 0], [0.5, 1.5, 8.0]], "r": 5.0, "origin": [0.3, 0.4, 0.2], "origin2": [14.5, -9.1, 4.7],
+                                   "frac": [[0.1, 0.2, 0.3], [0.6, 0.7, 0.85]], "Z": [6, 8], "which": "atoms_in_radius"}, replay_radius)
+                    continue
                 ctx.harness_error("%s: slab bounds not captured (%r)" % (name, p.exc or p.value))
                 continue
             (lo, hi) = p.exc.bounds
@@ -493,6 +535,7 @@ def dependency_sections(which):
     out = []
     if "slab" in which:
         out.append(("dependency: slab layout (C03 lemma B)", lambda c: lemma_B(c, Mods())))
-    if "molecule_environment" in which:
-        out.append(("dependency: cells searched by molecule_environment (C03 lemma A)", lambda c: lemma_A(c, Mods(), only={"molecule_environment"})))
+    sites = sorted(w for w in which if w in ("molecule_environment", "atomic_surroundings", "atom_group_surroundings", "atoms_in_radius"))
+    for w in sites:
+        out.append(("dependency: cells searched by %s (C03 lemma A)" % w, (lambda c, w=w: lemma_A(c, Mods(), only={w}))))
     return out
